@@ -412,6 +412,24 @@ func cmdCheck(args []string) int {
 	for _, r := range reports {
 		all = append(all, r.Obls...)
 	}
+	// undecided obligations (timeout / unknown) get a second, calmer attempt: fewer workers, four times the budget.
+	// A refutation (sat) is never retried.
+	var retry []*Obligation
+	for _, o := range all {
+		if !o.Cover && o.Result != nil && o.Result.Status != "unsat" && o.Result.Status != "sat" {
+			retry = append(retry, o)
+		}
+	}
+	if len(retry) > 0 && len(retry) <= 40 {
+		first := map[*Obligation]int64{}
+		for _, o := range retry {
+			first[o] = o.Result.Ms
+		}
+		solveAll(retry, timeout*4, 4)
+		for _, o := range retry {
+			o.Result.Ms += first[o]
+		}
+	}
 	solveMs := time.Since(t0).Milliseconds() - loadMs - genMs
 
 	known := loadKnown()
